@@ -194,4 +194,35 @@ def tracebackStore (w : Nat) (eqv : Nat → Nat → Bool) (p : List Nat) (dmax N
   let r := tracebackRd dmax p.length (readStore store ((stop + 1) % N)) (p.length + stop)
   (stop - r.1, r.2.1, r.2.2.reverse)
 
+
+/-! ### single pass over the text for the driver
+
+`tracebackStore` rebuilds the vector for every end position.  The driver needs the tracebacks at many ends of one search:
+`scanStore` keeps the vector (an `Array`) and the search state while it walks over the text once, exactly as
+`FullMatches` / `LazyMatches` do, and runs `_traceback_at` at the wanted ends (`Lemmas/TracebackScan.lean`:
+`scanStore_eq`, each reported triple is `tracebackStore … c c`). -/
+
+def readArr {w : Nat} (store : Array (St w)) (pos k : Nat) : St w :=
+  store.getD (readSlot store.size pos k) ⟨0#w, 0#w, 0⟩
+
+/-- `_traceback_at(self.pos)` after `c` symbols -/
+def tracebackNow {w : Nat} (m dmax N : Nat) (store : Array (St w)) (c : Nat) : Nat × Nat × List Op :=
+  let r := tracebackRd dmax m (readArr store ((c + 1) % N)) (m + c)
+  (c - r.1, r.2.1, r.2.2.reverse)
+
+def scanGo (w : Nat) (eqv : Nat → Nat → Bool) (p : List Nat) (dmax N : Nat) (want : Nat → Bool) :
+    Array (St w) → St w → Nat → List Nat → List (Nat × Nat × Nat × List Op)
+  | store, _, c, [] => if want c then [(c, tracebackNow p.length dmax N store c)] else []
+  | store, s, c, a :: rest =>
+    let s' := RbV.Model.MyersSimple.step p.length (RbV.Model.MyersSimple.peq w eqv p a) s
+    (if want c then [(c, tracebackNow p.length dmax N store c)] else []) ++
+      scanGo w eqv p dmax N want (store.setIfInBounds ((c + 2) % N) s') s' (c + 1) rest
+
+/-- all `(stop, start, dist, ops)` with `want stop`, `stop = 0 … |t|`, each computed when exactly `stop` symbols have been
+consumed -/
+def scanStore (w : Nat) (eqv : Nat → Nat → Bool) (p : List Nat) (dmax N : Nat) (old : List (St w)) (t : List Nat)
+    (want : Nat → Bool) : List (Nat × Nat × Nat × List Op) :=
+  let s0 := RbV.Model.MyersSimple.init w p.length
+  scanGo w eqv p dmax N want (((old.toArray).setIfInBounds (0 % N) (maxSt w dmax)).setIfInBounds (1 % N) s0) s0 0 t
+
 end RbV.Model.MyersTraceback
